@@ -7,6 +7,8 @@ package main
 import (
 	"encoding/json"
 	"fmt"
+	"io"
+	"net"
 	"os"
 	"os/exec"
 	"path/filepath"
@@ -51,6 +53,19 @@ type c03Overlap struct {
 	Join   bool   `json:"join"`
 }
 
+// c03Relay: three pulls of the same name hand over to one another. Pull A's first CDN request is answered 500, so the
+// client pauses (1 s) before it tries again, and A's user leaves during that pause; pull B starts a little later and
+// its CDN request for the first layer is held by the fake CDN; once A has had time to unwind, pull C runs and is
+// served correctly; then B's held response is delivered (intact, with a flipped byte, or cut short). Which of the
+// three transfers share a download, and which pulls succeed, is up to the server: whatever they report is judged by
+// the usual oracle when all three have ended.
+type c03Relay struct {
+	LeaveMs  int    `json:"a_leaves_ms_after_the_500"`
+	StartBMs int    `json:"b_starts_ms_after_a_left"`
+	StartCMs int    `json:"c_starts_ms_after_the_500"`
+	Damage   string `json:"held_response"` // ok | flip | short
+}
+
 type c03Attempt struct {
 	Version    int         `json:"version"`
 	Faults     []Fault     `json:"faults,omitempty"`
@@ -58,6 +73,7 @@ type c03Attempt struct {
 	Disconnect int         `json:"disconnect_after_line,omitempty"`
 	Resume     *c03Resume  `json:"resume,omitempty"`
 	Overlap    *c03Overlap `json:"overlap,omitempty"`
+	Relay      *c03Relay   `json:"relay,omitempty"`
 }
 
 type c03Case struct {
@@ -244,7 +260,17 @@ func c03Gen(r *kit.Rand, idx int, tiny []byte) c03Case {
 				at.Resume = rs
 			}
 		}
-		if idx%48 == 29 && a == 0 {
+		if idx%16 == 11 && a == 0 && c.Versions[at.Version].Layers[0].Size > 0 {
+			at.Stream, at.Disconnect, at.Resume, at.Overlap = true, 0, nil, nil
+			at.Relay = &c03Relay{LeaveMs: kit.Pick(r, []int{50, 300, 800}), StartBMs: kit.Pick(r, []int{0, 0, 30, 200}), StartCMs: kit.Pick(r, []int{1300, 1300, 2400}), Damage: kit.Pick(r, []string{"flip", "flip", "ok", "short"})}
+			at.Faults = []Fault{{Kind: "cdn", Nth: 1, Act: "status", Code: 500}}
+			switch at.Relay.Damage {
+			case "flip":
+				at.Faults = append(at.Faults, Fault{Kind: "cdn", Nth: 2, Act: "flip"})
+			case "short":
+				at.Faults = append(at.Faults, Fault{Kind: "cdn", Nth: 2, Act: "truncate"})
+			}
+		} else if idx%48 == 29 && a == 0 {
 			// the registry asks for a token and the token endpoint asks for one in turn, for ever
 			at.Resume = nil
 			at.Faults = []Fault{{Kind: kit.Pick(r, []string{"manifest", "manifest", "head", "blobget"}), Nth: 1, Act: "challenge", Str: "GOOD"}, {Kind: "token", Nth: 0, Act: "challenge", Str: "GOOD"}}
@@ -389,6 +415,12 @@ func c03Run(bin, work string, c *c03Case, rep *kit.Report) (vs []c03Viol, inconc
 				return append(vs, ovs...), ""
 			}
 			usedOverlap = true
+		} else if at.Relay != nil {
+			var inc string
+			res, inc = c03RunRelay(srv, reg, full, ver, at.Relay, rep)
+			if inc != "" {
+				return nil, fmt.Sprintf("attempt %d: %s", ai, inc)
+			}
 		} else if at.Disconnect > 0 {
 			res = srv.pullDisconnect(full, at.Disconnect)
 		} else {
@@ -639,6 +671,124 @@ func c03RunOverlap(srv *Srv, reg *FakeReg, full string, ver c03Version, ov *c03O
 	return res, vs, ""
 }
 
+// pullAbandon sends a streaming pull request on a connection of its own and drops the connection when leave is closed.
+func (s *Srv) pullAbandon(name string, leave <-chan struct{}) {
+	c, err := net.Dial("tcp4", fmt.Sprintf("127.0.0.1:%d", s.Port))
+	if err != nil {
+		return
+	}
+	body, _ := json.Marshal(map[string]any{"model": name, "insecure": true, "stream": true})
+	fmt.Fprintf(c, "POST /api/pull HTTP/1.1\r\nHost: 127.0.0.1\r\nContent-Type: application/json\r\nContent-Length: %d\r\n\r\n%s", len(body), body)
+	go io.Copy(io.Discard, c)
+	<-leave
+	if tc, ok := c.(*net.TCPConn); ok {
+		tc.SetLinger(0)
+	}
+	c.Close()
+}
+
+// c03RunRelay runs the three pulls of a relay attempt and returns the result of pull C once B has ended, too.
+func c03RunRelay(srv *Srv, reg *FakeReg, full string, ver c03Version, rl *c03Relay, rep *kit.Report) (res apiResult, inconclusive string) {
+	first := ver.Layers[0].Digest
+	failed, held, release := make(chan struct{}), make(chan struct{}), make(chan struct{})
+	var mu sync.Mutex
+	arrivals := 0
+	reg.mu.Lock()
+	reg.OnPath = func(kind, path string) {
+		if kind != "cdn" || !strings.HasSuffix(path, first) {
+			return
+		}
+		mu.Lock()
+		arrivals++
+		n := arrivals
+		mu.Unlock()
+		switch n {
+		case 1:
+			close(failed) // answered 500 by the fault plan
+		case 2:
+			close(held)
+			select {
+			case <-release:
+			case <-time.After(60 * time.Second):
+			}
+		}
+	}
+	reg.mu.Unlock()
+	defer func() {
+		reg.mu.Lock()
+		reg.OnPath = nil
+		reg.mu.Unlock()
+	}()
+	leaveA := make(chan struct{})
+	go srv.pullAbandon(full, leaveA)
+	select {
+	case <-failed:
+	case <-time.After(30 * time.Second):
+		close(leaveA)
+		close(release)
+		return res, "relay: pull A never asked the CDN for the first layer"
+	}
+	t0 := time.Now()
+	time.Sleep(time.Duration(rl.LeaveMs) * time.Millisecond)
+	close(leaveA)
+	time.Sleep(time.Duration(rl.StartBMs) * time.Millisecond)
+	doneB := make(chan apiResult, 1)
+	go func() { doneB <- srv.Pull(full, true, nil) }()
+	var resB apiResult
+	haveB := false
+	select {
+	case <-held:
+		rep.Count("relay_b_has_a_transfer_of_its_own_held", 1)
+		held = nil
+	case resB = <-doneB:
+		// B ended without a CDN request of its own (it joined A's abandoned transfer and shared its fate)
+		haveB = true
+		rep.Count("relay_b_ended_with_a_transfer_ok_"+fmt.Sprint(resB.OK()), 1)
+	case <-time.After(8 * time.Second):
+		rep.Count("relay_b_neither_asked_nor_ended", 1)
+	}
+	if d := time.Duration(rl.StartCMs)*time.Millisecond - time.Since(t0); d > 0 {
+		time.Sleep(d)
+	}
+	doneC := make(chan apiResult, 1)
+	go func() { doneC <- srv.Pull(full, false, nil) }()
+	if haveB {
+		doneB = nil
+	}
+	select {
+	case res = <-doneC:
+		// C ended while B's response is still held: it had a transfer of its own
+		rep.Count("relay_c_ended_before_release_ok_"+fmt.Sprint(res.OK()), 1)
+	case resB = <-doneB:
+		haveB = true
+	case <-held:
+		// C's own transfer is the one that is held (and damaged)
+		rep.Count("relay_c_transfer_held", 1)
+	case <-time.After(4 * time.Second):
+		// C waits for the held transfer
+		rep.Count("relay_c_joined_held_transfer", 1)
+	}
+	close(release)
+	if !haveB {
+		select {
+		case resB = <-doneB:
+		case <-time.After(120 * time.Second):
+			return res, "relay: pull B did not end within 120 s of the release"
+		}
+	}
+	if res.Status == 0 && res.Err == "" {
+		select {
+		case res = <-doneC:
+		case <-time.After(120 * time.Second):
+			return res, "relay: pull C did not end within 120 s of the release"
+		}
+	}
+	rep.Count("relay_"+rl.Damage+fmt.Sprintf("_b_ok_%v_c_ok_%v", resB.OK(), res.OK()), 1)
+	// let a transfer that is still writing end before the store is judged
+	time.Sleep(200 * time.Millisecond)
+	return res, ""
+}
+
 func sameManifest(a, b manifestDoc) bool {
 	if a.Config.Digest != b.Config.Digest || a.Config.Size != b.Config.Size || a.Config.MediaType != b.Config.MediaType || len(a.Layers) != len(b.Layers) {
 		return false
@@ -655,7 +805,7 @@ func runC03() {
 	rep := kit.NewReport("C03")
 	cfg := rep.Cfg()
 	defer rep.Flush()
-	rep.Set("rule", "case i = PRNG(seed,'C03',i): 1-2 model versions (2-5 layers of 0 B..300 KB, layers shared between versions) and 1-4 pull attempts of one name against the real server binary; every attempt but the last carries 1-3 registry/CDN faults (5xx/4xx/404 on manifest, HEAD, blob GET, CDN; 401 with ~30 malformed challenge headers and with a well-formed one whose token endpoint is served; truncated/garbage/reset manifest; wrong or missing Content-Length on HEAD; redirect chains; CDN body truncated, bit-flipped, Range ignored, short, too long, reset), optional client disconnect after progress line k, a CDN outage for a whole attempt (two cases per 96: one part uses up all six tries of the client), optional synthetic resume state (multi-part -partial files, correct or corrupt). Oracle after every attempt: server alive; success => stored manifest equals the served one and every layer + config has the manifest's size and SHA-256 (re-hashed); failure => if the name resolves its manifest's layers are all intact; a fault-free attempt at the end succeeds (at most two further fault-free retries are allowed, e.g. after a digest mismatch from bytes left in the resume file) and the model can be shown. Non-trivial & distinct = distinct (sequence of fault kinds+acts per attempt, outcomes) among cases with at least one faulted attempt")
+	rep.Set("rule", "case i = PRNG(seed,'C03',i): 1-2 model versions (2-5 layers of 0 B..300 KB, layers shared between versions) and 1-4 pull attempts of one name against the real server binary; every attempt but the last carries 1-3 registry/CDN faults (5xx/4xx/404 on manifest, HEAD, blob GET, CDN; 401 with ~30 malformed challenge headers and with a well-formed one whose token endpoint is served; truncated/garbage/reset manifest; wrong or missing Content-Length on HEAD; redirect chains; CDN body truncated, bit-flipped, Range ignored, short, too long, reset), optional client disconnect after progress line k, a CDN outage for a whole attempt (two cases per 96: one part uses up all six tries of the client), optional synthetic resume state (multi-part -partial files, correct or corrupt, an empty part file, an incomplete set of part files), overlapping pulls of a second model sharing the first layer while the first pull is held by the CDN, relay attempts (three pulls of the name: A's first CDN request fails and its user leaves during the retry pause, B starts meanwhile and any CDN request of its own is held, C runs once A has unwound, then the held response is delivered intact, flipped or cut; judged when all three have ended), a token endpoint that itself answers 401 with a challenge. Oracle after every attempt: server alive; success => stored manifest equals the served one and every layer + config has the manifest's size and SHA-256 (re-hashed); failure => if the name resolves its manifest's layers are all intact; a fault-free attempt at the end succeeds (at most two further fault-free retries are allowed, e.g. after a digest mismatch from bytes left in the resume file) and the model can be shown. Non-trivial & distinct = distinct (sequence of fault kinds+acts per attempt, outcomes) among cases with at least one faulted attempt")
 	rep.Set("assumptions", []string{"served manifests are self-consistent (sizes and digests describe the blobs they name)", "quick tier: single-part layers over the wire (<100 MB), multi-part layouts through synthetic resume files; thorough tier adds real 200-230 MB layers (three download parts)", "process death is observed through /api/version + the server log"})
 	bin := os.Getenv("VERIF_OLLAMA_BIN")
 	work, err := os.MkdirTemp("", "verif-c03-")
@@ -715,6 +865,9 @@ func runC03() {
 				}
 				if a.Disconnect > 0 {
 					ks = append(ks, "disconnect")
+				}
+				if a.Relay != nil {
+					ks = append(ks, fmt.Sprintf("relay-%s-%d-%d-%d", a.Relay.Damage, a.Relay.LeaveMs, a.Relay.StartBMs, a.Relay.StartCMs))
 				}
 				if a.Overlap != nil {
 					ks = append(ks, fmt.Sprintf("overlap-%s-join%v", a.Overlap.Damage, a.Overlap.Join))
